@@ -57,7 +57,7 @@ CHECKS = {
     "C19": dict(level="exploration", engine="fakeredis cluster role",
         technique="runtime monitor: globally ordered per-node effect logs of a multi-node cluster double (routing by independent HASH_SLOT, MIGRATING/IMPORTING/ASK/MOVED/TRYAGAIN semantics) under scripted migration schedules; per-key segment oracle + resume-position clause",
         text="Real RedisOutput with a cluster client against 3-5 node doubles; schedules: none, MOVED between/mid batch, ASK windows with existing/missing keys, back-and-forth, node added; "
-             "blocking/pipelined, transactional/non-transactional; slot-table refresh released between two Puts of one batch; two connection-fault schedules (reset mid-batch, connection lost before the first reply); writes with a legal null-bulk reply in every mode; schedule abandoned-node-worker (one node resets, another stalls until the restarted run has overtaken it). Two known findings (non-atomic node pipelines: the reported flavour, and the silent bounce inversion of the blocking non-transactional sender) are listed in known_findings.json. Order signatures carry the run outcome and, for acknowledged disorders, whether the sender's own batch retry repaired them (healed=in-run-retry). Schedule cross-node-command: a two-key DEL/UNLINK/MSET whose keys are owned by two nodes (what a standalone source can send), alone in the sender's queue for three ticker periods or travelling with its neighbours: reported, never acknowledged with a position behind it.",
+             "blocking/pipelined, transactional/non-transactional; slot-table refresh released between two Puts of one batch; two connection-fault schedules (reset mid-batch, connection lost before the first reply); writes with a legal null-bulk reply in every mode; schedule abandoned-node-worker (one node resets, another stalls until the restarted run has overtaken it). Two known findings (non-atomic node pipelines: the reported flavour, and the silent bounce inversion of the blocking non-transactional sender) are listed in known_findings.json. Order signatures carry the run outcome and, for acknowledged disorders, whether the sender's own batch retry repaired them (healed=in-run-retry). Schedule cross-node-command: a two-key DEL/UNLINK/MSET whose keys are owned by two nodes (what a standalone source can send), alone in the sender's queue for three ticker periods or travelling with its neighbours: reported, never acknowledged with a position behind it. Schedule moved-to-unreachable: a new master takes the victim slots and refuses connections from the tool; MOVED to it must end in a reported error, not in an acknowledged batch.",
         design="DESIGN.md §3 C19", note="the double enforces 'executed by the owner'; slots from internal/ref.HashSlot; " + TRUST),
     "C05": dict(level="exploration", engine="chanmodel",
         technique="runtime monitor at the Channel boundary of both cache backends against a byte-by-offset model (PRF bytes identify their origin); sequential generated op histories + concurrent writer/readers/collector/pollers under the race detector with interval-bound checks",
